@@ -254,6 +254,9 @@ def run(ctx) -> Report:
         "terminal-class coverage of compute_terminal_hashdata decided on the AST against the type model."
     )
     rep.assumptions = ["sha512 modelled by itself: distinct pre-hash data are taken to give distinct digests", "traversal drivers modelled (C19)", "finite elements are abstract objects identified by their repr / signature string"]
+    from ..memokey import memo_rule
+
+    memo_rule(ctx, rep, "C11-key", ['ufl.algorithms.signature'])
     return rep
 
 
